@@ -46,6 +46,8 @@ REFS = {
         'def minimum(f, samples):\n    y = [f(x) for x in samples]\n    return min(y)\n',
     'mystic.math.measures:ptp':
         'def ptp(f, samples):\n    y = [f(x) for x in samples]\n    return max(y) - min(y)\n',
+    'mystic.math.measures:_sort':
+        'def _sort(samples, weights=None):\n    import numpy as np\n    if weights is None:\n        x = np.ones((2,len(samples)))\n        x[0] = np.sort(samples)\n        return x\n    x = np.vstack([samples,weights]).T\n    return x[x[:,0].argsort()].T\n',
     'mystic.math.measures:median':
         'def median(samples, weights=None):\n    import numpy as np\n    x, w = _sort(samples, weights)\n    s = sum(w)\n    return np.mean(x[s / 2.0 - np.cumsum(w) <= 0][0:2 - x.size % 2])\n',
     'mystic.math.measures:mad':
